@@ -169,9 +169,10 @@ type world struct {
 	dir     string
 	ckptID  uint64
 
-	mu    sync.Mutex
-	calls []map[string][]*workerpb.SourceSplit
-	done  []int // shards reported finished by a reader during the current call
+	mu        sync.Mutex
+	calls     []map[string][]*workerpb.SourceSplit
+	done      []int // shards reported finished by a reader during the current call
+	notifyErr error
 
 	// ground truth of the property
 	em       map[int]int            // records emitted in the current timeline
@@ -355,7 +356,11 @@ func (w *world) notify(rn string, ids []string) {
 				}
 			}
 		}
-		if !found || time.Now().After(dl) {
+		if !found {
+			return
+		}
+		if time.Now().After(dl) {
+			w.notifyErr = fmt.Errorf("NotifySplitsFinished(%v): the splitter still tracks the shard after %v", ids, wait)
 			return
 		}
 		time.Sleep(100 * time.Microsecond)
@@ -534,6 +539,9 @@ func (w *world) read(rn string, lim int) (recs []rec, done []int, vs []viol, err
 	evs, e := rd.ReadEvents()
 	if e != nil {
 		return nil, nil, nil, fmt.Errorf("ReadEvents of %s: %w", rn, e)
+	}
+	if w.notifyErr != nil {
+		return nil, nil, nil, w.notifyErr
 	}
 	done = w.done
 	w.done = nil
